@@ -105,11 +105,12 @@ def free_trees(gw, base, rng, n):
                     # the same RSync object once more, after an edit that keeps the size (only content and mtime change)
                     # (twice: whatever the object remembers from one round must not decide the next one)
                     vp = os.path.join(src, victim)
+                    t2 = int(os.lstat(vp).st_mtime)
                     for _round in range(2):
                         data = open(vp, "rb").read()
                         with open(vp, "wb") as f:
                             f.write(bytes((b + 1) % 256 for b in data))
-                        t2 = int(os.lstat(vp).st_mtime) + 77
+                        t2 += 77      # a new mtime in every round (writing the file has just set it to "now")
                         os.utime(vp, (t2, t2))
                         for d in dests:
                             r.add_target(gw, d, delete=True)
@@ -172,6 +173,10 @@ def run(ctx):
         from real import rsync_trace
 
         protos = [rsync_trace.run_one(gw, os.path.join(ctx.scratch, "proto"), rng) for _ in range(120 if ctx.quick else 1500)]
+        from real import rsync_rounds
+
+        rwords = rsync_rounds.words(3 if ctx.quick else 5)
+        rounds = [rsync_rounds.run_word(gw, os.path.join(ctx.scratch, "rounds"), w, i) for i, w in enumerate(rwords)]
     finally:
         gw.exit()
         execnet.default_group.terminate(timeout=3)
@@ -188,6 +193,21 @@ def run(ctx):
             ctx.note(f"MODEL-DRIFT {vd}: {json.dumps(o)[:200]}")
             continue
         ctx.violation(f"{vd}: {json.dumps(o)[:400]}", o, key=KNOWN.get(vd))
+    # one RSync object over several rounds: the model and its mutant (digests remembered on the object), behaviours replayed above
+    rr = tlc.run("RSyncRounds", "RR.cfg", scratch=ctx.scratch, timeout=300, parse_trace=False)
+    if not rr.ok:
+        ctx.machinery(f"TLC RSyncRounds: {rr.violated} {rr.error[:300]}")
+    rm = tlc.run("RSyncRounds", "RR_digestcache.cfg", scratch=ctx.scratch, timeout=300, parse_trace=False)
+    if rm.violated != "TargetEqualsSourceAfterSend":
+        ctx.machinery(f"TLC mutant RSyncRounds/RR_digestcache not killed by TargetEqualsSourceAfterSend ({rm.violated})")
+    for c, vd in zip(rounds, batch.judge("RSyncRoundsCases", rounds, ctx.scratch)):
+        hist["rounds:" + vd] = hist.get("rounds:" + vd, 0) + 1
+        if vd.startswith("HARNESS"):
+            ctx.machinery(f"{vd}: {json.dumps(c)[:300]}")
+        elif vd.startswith("MODEL-DRIFT"):
+            ctx.note(f"{vd}: {json.dumps(c)[:200]}")
+        elif vd != "ok":
+            ctx.violation(f"{vd}: {json.dumps(c)[:300]}", c)
     pverdicts = batch.judge("RSyncProtoCases", protos, ctx.scratch)
     for c, vd in zip(protos, pverdicts):
         hist["proto:" + vd] = hist.get("proto:" + vd, 0) + 1
